@@ -133,11 +133,15 @@ func (s *RSchema) Compile() error {
 func (s *RSchema) doCompile() error {
 	content := s.File.Content()
 
+	if content.Len() == 0 {
+		return kit.NewJSchemaError(s.File, errs.ErrEmptySchema.F())
+	}
+
 	if content.Byte(0) != '/' {
 		return s.newJSchemaError(errs.ErrRegexUnexpectedStart, 0, content.Byte(0))
 	}
 
-	var escaped bool
+	var escaped, closed bool
 
 loop:
 	for i, c := range content.SubLow(1).Data() {
@@ -148,6 +152,7 @@ loop:
 		case '/':
 			if !escaped {
 				s.pattern = content.Sub(1, i+1).String()
+				closed = true
 				break loop
 			}
 			escaped = false
@@ -157,7 +162,7 @@ loop:
 		}
 	}
 
-	if s.pattern == "" {
+	if !closed {
 		idx := uint(content.Len() - 1)
 		return s.newJSchemaError(errs.ErrRegexUnexpectedEnd, idx, content.Byte(idx))
 	}
